@@ -49,6 +49,7 @@ class Grammar:
         self.note = note
         self.extra = extra or []  # additional explicit inputs (latin-1 strings)
         self.selectors = []       # parse-tree selectors 1..: dict ctype -> mode (1 store, 2 remove_content, 3 fold_one, 4 discard_empty)
+        self.analyze = False      # C11: emit a call of tao::pegtl::analyze< R0 >
         self.fam1 = {}            # scripted actions of the second action family (C13): ctype -> kind
         self.switches = {}        # attached switches: str(family) -> { ctype: [name, a, b] }
         self.maxlen = maxlen      # (quick, thorough) exhaustive input length, None = default
@@ -57,7 +58,7 @@ class Grammar:
         return {"rules": [r.to_json() for r in self.rules], "actions": self.actions,
                 "errmsg": {str(k): v for k, v in self.errmsg.items()}, "nonempty_slots": self.nonempty_slots,
                 "veto": self.veto, "throw": self.throw, "alphabet": self.alphabet, "note": self.note,
-                "extra": self.extra, "maxlen": self.maxlen, "selectors": self.selectors, "fam1": self.fam1, "switches": self.switches}
+                "extra": self.extra, "maxlen": self.maxlen, "selectors": self.selectors, "fam1": self.fam1, "switches": self.switches, "analyze": self.analyze}
 
     @staticmethod
     def from_json(j):
@@ -67,6 +68,7 @@ class Grammar:
                     j.get("extra"), j.get("maxlen"))
         g.selectors = j.get("selectors", [])
         g.fam1 = j.get("fam1", {})
+        g.analyze = j.get("analyze", False)
         g.switches = j.get("switches", {})
         return g
 
@@ -124,6 +126,8 @@ def ctype(n):
         return "rep_one_min_max< %d, %d, %s >" % (p["min"], p["max"], cchar(p["c"]))
     if o == "slot":
         return "vf::slot< %d >" % p["k"]
+    if o == "raw_string":
+        return "raw_string< %s >" % ", ".join([cchar(c) for c in p["omc"]] + [ctype(k) for k in n.kids])
     if o == "utf8_any":
         return "utf8::any"
     if o in ("utf8_one", "utf8_not_one"):
@@ -381,6 +385,8 @@ def expand(n):
         return until_e(k[0], k[1:])
     if o == "rematch":
         return E("REMATCH", k)
+    if o == "raw_string":
+        return E("RAW_STRING", k, s=p["omc"])
     if o == "raise":
         return E("RAISE", blame=k[0])
     if o == "raise_message":
@@ -546,6 +552,8 @@ def analyse(L, nonempty_slots=0):
                 v = m.a == 0 or seqnull(m.kids)
             elif o == "REMATCH":
                 v = nullable[m.kids[0]]
+            elif o == "RAW_STRING":
+                v = False
             else:  # SEQ PLUS TRY_* ENABLE DISABLE SCOPE LIMIT_DEPTH
                 v = seqnull(m.kids)
             if v and not nullable[i]:
@@ -553,7 +561,7 @@ def analyse(L, nonempty_slots=0):
                 changed = True
     problems = []
     for i, m in enumerate(nodes):
-        if m.op in ("STAR", "PLUS", "STAR_PARTIAL", "STAR_STRICT") and seqnull(m.kids):
+        if m.op in ("STAR", "PLUS", "STAR_PARTIAL", "STAR_STRICT") and seqnull(m.kids) or (m.op == "RAW_STRING" and m.kids and seqnull(m.kids)):
             problems.append("nullable repetition body at node %d" % i)
     # left calls
     left = [set() for _ in range(n)]
@@ -561,6 +569,8 @@ def analyse(L, nonempty_slots=0):
         o = m.op
         if o == "SOR" or o == "REMATCH":
             left[i].update(m.kids)
+        elif o == "RAW_STRING":
+            pass  # contents start after the opening bracket
         elif o == "PARTIAL":
             for k in m.kids:
                 left[i].add(k)
@@ -691,6 +701,8 @@ def emit_grammar(g, gi, cfgset_macro="VF_CFGS"):
     ops_used = set(n.op for r in g.rules for n in r.walk())
     visited_ok = not (ops_used & {"until", "strict", "everything", "shebang"})
     sel_txt = ""
+    if g.analyze:
+        sel_txt += "e.analyze_fn = [] () -> std::size_t { return tao::pegtl::analyze< R0 >( -1 ); }; "
     if g.selectors:
         allm = [1 if m.ctype else 0 for m in L.nodes]
         sel_txt += "e.sel_modes.push_back( { %s } ); " % ", ".join(str(x) for x in allm)
@@ -896,6 +908,17 @@ class Gen:
         if o == "control":
             return N(o, k(r.choice([1, 1, 2])))
         raise ValueError(o)
+
+    def grammar_unfiltered(self):
+        """C11: no well-formedness filter - the grammar may loop without progress."""
+        nr = self.r.randint(*self.nrules)
+        rules = [self.expr(self.max_depth, nr) for _ in range(nr)]
+        if rules[0].op == "ref":
+            rules[0] = N("seq", [rules[0]])
+        for i in range(nr):
+            if rules[i].op == "ref":
+                rules[i] = N("seq", [rules[i], self.atom()])
+        return Grammar(rules)
 
     def grammar(self, tries=200):
         """Draws grammars until one passes the well-formedness filter; returns (grammar, rejected_drafts)."""
